@@ -3,7 +3,7 @@
     runs the real Test.Run / RunTestsSilent on them and writes what it observed;
     [check] re-runs the model on the same graph, oracle, initial results and
     run order. *)
-From CSS Require Import Lib.Base Lib.Cases Model.Runner.
+From CSS Require Import Lib.Base Lib.Cases Model.Runner Model.RunnerFault.
 
 Definition default_test : test := mkTest false Implemented [].
 Definition ts_of (l : list test) : nat -> test := fun i => nth i l default_test.
@@ -48,9 +48,32 @@ Inductive observed :=
 | ObsList (rets : list bool)        (* return value of every Test.Run, in order *)
 | ObsSilent (r : silent_ret).       (* RunTestsSilent *)
 
+(** [CFault]: a run of Test.Run calls on the REAL checks of the suites under a
+    fault pattern (harness/cmd/c06, Part B).  [shapes]: per test, for its 1st,
+    2nd, ... evaluation in this run, how many hardware accesses the check made
+    and what it returned (last entry repeats); the model re-executes the run
+    with the straight-line programs of that shape over [inject m] (Model/RunnerFault.v)
+    and must reproduce the return values, stored results, blames, every
+    evaluation with its window of calls and per-access failure flags as the
+    harness' injector recorded them, the total number of hardware calls of the
+    run, and the list of evaluations that returned success although an access
+    of their own failed ([swallows], what the harness' oracle judges). *)
 Inductive case : Type :=
 | CRun (tests : list test) (oracle : list (list outcome3)) (init : list result) (order : list nat)
-       (o : observed) (final : list result) (blames : list (option nat)) (tr : list event).
+       (o : observed) (final : list result) (blames : list (option nat)) (tr : list event)
+| CFault (tests : list test) (shapes : list (list (nat * outcome3))) (init : list result) (order : list nat)
+         (m : fmode) (rets : list bool) (final : list result) (blames : list (option nat))
+         (htr : list hev) (total : nat) (sw : list nat).
+
+Definition progs_of (l : list (list (nat * outcome3))) : nat -> nat -> prog unit :=
+  fun id n =>
+    let ps := nth id l [] in
+    let '(k, o) := nth n ps (last ps (0%nat, (false, false, false))) in
+    lin k o.
+
+Definition hev_eqb (a b : hev) : bool :=
+  Nat.eqb (h_id a) (h_id b) && Bool.eqb (h_dep a) (h_dep b) && Nat.eqb (h_from a) (h_from b)
+  && list_eqb Bool.eqb (h_flags a) (h_flags b) && out_eqb (h_out a) (h_out b).
 
 Definition final_ok (n : nat) (s : state) (final : list result) (blames : list (option nat)) (tr : list event) : bool :=
   list_eqb result_eqb (map (res s) (seq 0 n)) final
@@ -74,6 +97,16 @@ Definition check (c : case) : bool :=
           | Some (s, r') => sret_eqb r' r && final_ok n s final blames tr
           | None => false
           end
+      end
+  | CFault tests shapes init order m rets final blames htr total sw =>
+      let n := length tests in
+      match run_list_h (ts_of tests) (progs_of shapes) (inject m (fun _ => tt)) (S n)
+                       (init_hstate (st_of init)) order with
+      | Some (s, rs) =>
+          list_eqb Bool.eqb rs rets && final_ok n (hs s) final blames (map hev_ev htr)
+          && list_eqb hev_eqb (htrace s) htr && Nat.eqb (hcalls s) total
+          && list_eqb Nat.eqb (swallows (htrace s)) sw
+      | None => false
       end
   end.
 
